@@ -16,14 +16,14 @@ import (
 
 type c08Case struct {
 	Proto     string
-	Closer    string // A | B : which end of the link closes
-	PeerClose bool   // Close the whole peer instead of the session
-	In        int    // calls in flight towards the closing side (its handlers run)
-	Out       int    // calls issued by the closing side (the other side's handlers run)
-	Late      int    // calls issued towards the closing side right after Close was invoked
-	Release   []int  // release order: indexes into the In+Out handlers
-	Cut       bool   // cut the connection after Close began and before the last release
-	CutAfter  int    // number of releases before the cut
+	Closer    string   // A | B : which end of the link closes
+	PeerClose bool     // Close the whole peer instead of the session
+	In        int      // calls in flight towards the closing side (its handlers run)
+	Out       int      // calls issued by the closing side (the other side's handlers run)
+	Late      int      // calls issued towards the closing side right after Close was invoked
+	Release   []int    // release order: indexes into the In+Out handlers
+	Cut       bool     // cut the connection after Close began and before the last release
+	CutAfter  int      // number of releases before the cut
 	Second    string   // a second closer started right after the first one: "" | session
 	Prior     []string // operations completed on the closing side's session before anything is in flight: okcall | failcall | push | unencodable (the argument cannot be marshalled: the call fails locally) | deadctx (the call's context is already cancelled: it fails locally)
 }
